@@ -10,7 +10,7 @@ LABEL_POOLS = [
     lambda n: list(range(n)),
     lambda n: [f"X{i}" for i in range(n)],
     lambda n: [("v", i) for i in range(n)],
-    lambda n: [["a", 3, (1, 2), "b", 7.5, -1, "zz", (0,)][i] for i in range(n)],
+    lambda n: [["a", 3, (1, 2), "b", 7.5, -1, "zz", (0,), "c", 11, (2, 1), "d", 0.25, -7][i] for i in range(n)],
 ]
 
 
@@ -23,6 +23,10 @@ def _graph(labels, triples, rng, drop_attrs=False, np_lags=False):
             for k in ("cmi", "p_value"):
                 if rng.random() < 0.3:
                     del attrs[k]
+            if rng.random() < 0.3:     # attributes the functions do not document (NetworkX itself gives `weight` a meaning)
+                attrs["weight"] = float(rng.choice([0.0, 0.5, 2.0, -1.0, 3.0]))
+            if rng.random() < 0.15:
+                attrs["color"] = "red"
         G.add_edge(labels[u], labels[v], **attrs)
     return G
 
@@ -62,8 +66,10 @@ def check(run, driver):
             graphs.append(("exhaustive-n<=2", _graph(list(range(n)), tr, rng), tr))
     run.exhaustive = True
     for it in range(600 if thorough else 150):
-        n = int(rng.integers(1, 9)); K = int(rng.integers(0, 7))
+        n = int(rng.integers(1, 9 if it % 5 else 14)); K = int(rng.integers(0, 7))
         labels = LABEL_POOLS[it % 4](n)
+        if it % 2 and it % 4 != 3:          # nodes inserted in no particular order (and 'X10' sorts before 'X2'): node order = insertion order
+            labels = [labels[i] for i in rng.permutation(n)]
         all_tr = [(u, v, l) for u in range(n) for v in range(n) for l in range(0, K + 1)]
         m = int(rng.integers(0, min(len(all_tr), 3 * n + 2) + 1))
         idx = rng.choice(len(all_tr), size=m, replace=False) if m else []
